@@ -13,6 +13,9 @@ def leaf_replay(strings_from):
     def fn(eng, tag, cfile, defs, inputs, res):
         off, ln = inputs.get(0, 1), inputs.get(1, 0)
         s = bytes((inputs.get(4 + off + i, 0x20) & 0xff) for i in range(ln))
+        for d in defs:
+            if d.startswith("-DFIRST=") and s:
+                s = bytes([int(d[8:])]) + s[1:]
         cands = []
         cands.append(s + b"\n")
         cands.append(s + b" rax, rcx\n")
@@ -45,7 +48,10 @@ def run(tier, only=None):
         ("c09.opds.2x3", "tok_opds.c", ["-DNOPD=2", "-DOPW=3"], [], None, 110, 3000),
         ("c09.opds.6x1", "tok_opds.c", ["-DNOPD=6", "-DOPW=1"], [], None, 110, 3000),
     ]
-    for t in ("T_REGSTR", "T_ADD", "T_CONST", "T_INDEX", "T_TYPE", "T_KW", "T_MEMTOK", "T_IMMTOK", "T_STRTOREG", "T_INSTRKEY"):
+    firsts = list(range(0x5b, 0x7b))
+    for c in firsts:
+        units.append(("c09.leaf.instrkey.%02x" % c, "tok_leaf.c", ["-DT_INSTRKEY", "-DLEAFLEN=12", "-DFIRST=%d" % c], [], "leaf", 110, 1200))
+    for t in ("T_REGSTR", "T_ADD", "T_CONST", "T_INDEX", "T_TYPE", "T_KW", "T_MEMTOK", "T_IMMTOK", "T_STRTOREG"):
         ll = leaflen if t not in ("T_KW", "T_MEMTOK") else (7 if t == "T_KW" else min(leaflen, 9))
         units.append(("c09.leaf.%s" % t[2:].lower(), "tok_leaf.c", ["-D" + t, "-DLEAFLEN=%d" % ll], [], "leaf", 110, 3000))
     if only:
